@@ -69,6 +69,38 @@ def run (op : String) (args impl : List String) : Outcome :=
         | some (p, k) => specFail s!"[C16] request {k + 1} of a session was answered {p.headD "?"} but alone it is answered {p.getD 1 "?"}: a rejected or incomplete request had a side effect on a later one"
         | none => if pairs.length != (reqs.splitOn "@").length then specFail "[C16] a request of the session got no answer" else specOk,
       tags := ["seq", "nt"] }
+  | "listen", [addr, key] =>
+    -- a --listen address: HOST:PORT, :PORT or PORT (`parseListenAddress`), and what the real listener does with it
+    let a := String.mk ((parseNatList addr).map Char.ofNat)
+    let parts := a.splitOn ":"
+    let parsed : Option (String × Nat) :=
+      let hp : Option (String × String) := match parts with
+        | [p] => some ("localhost", p)
+        | [h, p] => some (if h.isEmpty then "localhost" else h, p)
+        | _ => none
+      match hp with
+      | some (h, p) => if !p.isEmpty ∧ p.all Char.isDigit ∧ p.length ≤ 9 ∧ p.toNat! ≤ 65535 then some (h, p.toNat!) else none
+      | none => none
+    match parsed with
+    | none =>
+      { model := "reject", same := some (impl == ["reject"]),
+        spec := if impl == ["reject"] then specOk else specFail "[C16] a malformed --listen address is accepted", tags := ["listen", "reject"] }
+    | some (h, port) =>
+      let isLoc := h == "localhost" || h == "127.0.0.1"
+      let hostEnc := showNatList (h.toList.map Char.toNat)
+      let model := s!"{hostEnc} {port} {if isLoc then 1 else 0}"
+      match impl with
+      | [ih, ip, il, started, loopback] =>
+        let spec :=
+          if key == "-" ∧ started == "1" ∧ loopback != "1" then
+            specFail "[C16] without FZF_API_KEY the listener started on an address that is not a loopback address"
+          else if key == "-" ∧ !isLoc ∧ started == "1" then
+            specFail "[C16] a listener for a non-local address started without FZF_API_KEY"
+          else if isLoc ∧ port == 0 ∧ started != "1" then specFail "[C16] the local listener did not start"
+          else specOk
+        { model, same := some ([ih, ip, il] == [hostEnc, toString port, if isLoc then "1" else "0"]), spec,
+          tags := ["listen"] ++ (if isLoc then ["local"] else ["remote"]) ++ (if key != "-" then ["key"] else []) ++ ["nt"] }
+      | _ => { model, same := some false, spec := specFail "[C16] a documented --listen address is rejected", tags := ["listen"] }
   | _, _ => { model := "bad-op" }
 
 end Driver.Http
